@@ -1,6 +1,6 @@
 #!/bin/bash
 # Builds every check binary once (warms the Go build cache); offline, from files on disk only.
-cd /verif || exit 1
+cd "$(dirname "$0")" || exit 1
 . ./env.sh
 mkdir -p .bin evidence replays
 cd harness || exit 1
